@@ -31,7 +31,8 @@ MANIFEST = {
              " Second phase: inplace_save_keeps_store_files (load from t, save onto t: every data/images file keeps its bytes although every cell was notLoaded; well-formed FS) and its counterexample on the variant without step 5."
              " Third phase: generators extended by 12 font-info boundary variants, 5 groups shapes, save_with_options, other spellings of the target, fonts from partial loads."
              " Source-level tie: tools/extract_save_order.py regenerates Generated/SaveOrder.lean from src/font.rs on every run; source_validators_precede_wipe (the steps in front of remove_dir_all in fn save_impl are exactly the model's five validators, then create_dir, then the writes) and source_save_order_matches_plan (the write order of the source equals the order of `plan` on a probe font), by decide."
-             " Last phase: source_plan_refusal_has_no_effect and source_refuses_whenever_model_does - the step list extracted from fn save_impl, run against the model (Source.execSteps), refuses with the untouched file system whenever one of its pre-wipe steps refuses, for every interpretation of unknown steps, and refuses whenever the model's validatePhase does."),
+             " Last phase: source_plan_refusal_has_no_effect and source_refuses_whenever_model_does - the step list extracted from fn save_impl, run against the model (Source.execSteps), refuses with the untouched file system whenever one of its pre-wipe steps refuses, for every interpretation of unknown steps, and refuses whenever the model's validatePhase does."
+             " Session 2026-09-29: the saveTable section of the extractor translates every top-level statement of fn save_impl into rows (guard atoms, step); source_save_table_parses (every atom and step is one the model has a meaning for, in the model's order), source_save_table_eq_model (running the regenerated rows against the abstract file system IS saveImpl, every font / file system / target), source_table_refusals_precede_wipe."),
     "design_ref": "5 / C08, 4 (abstract file system)",
     "note": "trusted: Lean kernel + 3 standard axioms; harness/driver glue; std::fs vs abstract FS; validators and renderers abstract",
     "technique": "Lean 4 proof about an effect-ordered model of save + differential sandbox snapshots against the real crate",
